@@ -344,11 +344,11 @@ def rule_G(ck, lib):
                          "digit classes of %s: first %s, rest %s; both must be equal and contain all radix-%d digits" % (kind, bytecls.show_set(d1), bytecls.show_set(d2), RADIX[kind]))
                 # text = from_utf8(i2[..len(i2) - len(rem)]) with i2 the remainder after the letter
                 i2 = ("tproj", ("payload", apps[1][2], OK, 0), 0)
-                ok = span_of(v[2][0], i2, rem)
+                ok = span_of(v[2][0], i2, rem, sk, f, x)
                 ck.judge(ok, "C03-G", "%s:span" % name, "text = bytes after the letter up to the remainder", "Value::%s carries %s, not the span after the radix letter" % (kind, show_term(v[2][0])))
             elif kind == "Decimal":
                 found.add(kind)
-                ok = span_of(v[2][0], f["inp"], rem)
+                ok = span_of(v[2][0], f["inp"], rem, sk, f, x)
                 ck.judge(ok, "C03-G", "%s:span" % name, "Decimal text = exactly the consumed span", "Value::Decimal carries %s, not the consumed span" % show_term(v[2][0]))
                 # the decimal grammar, as the language of consumed token sequences (sub-parsers expanded, whatever their names)
                 if name not in dec_done:
@@ -432,16 +432,32 @@ def rule_G(ck, lib):
                  "argument() does not reach a recogniser for %s / quote characters %s" % (sorted(want - kinds), sorted({34, 39} - quotes)))
 
 
-def span_of(arg, base, rem):
-    """arg == from_utf8(base[..len(base) - len(rem)])? (Ok payload)"""
+def span_of(arg, base, rem, sk=None, f=None, x=None):
+    """arg == from_utf8(base[..len(base) - len(rem)])? (Ok payload) - i.e. the text is exactly what was consumed between
+    `base` and the remainder `rem`. The slice may be written with any bound that the slice-length facts of the path prove
+    equal to len(base) - len(rem) (`base[..more.len() + 1]`, `base.split_at(k).0`, ...)."""
     if not (arg[0] == "payload" and arg[2] == OK and arg[1][0] == "call" and arg[1][1].endswith("from_utf8")):
         return False
     s = strip_sites(arg[1][2][0])
     base, rem = strip_sites(base), strip_sites(rem)
-    if s[0] != "index" or s[1] != base or s[2][0] != "struct" or not s[2][1].endswith("RangeTo"):
+    end = None
+    if s[0] == "index" and s[1] == base and s[2][0] == "struct":
+        fd = dict(s[2][2])
+        if s[2][1].endswith("RangeTo") or (s[2][1].endswith("::Range") and fd.get("start") == ("lit", "int", 0)):
+            end = fd.get("end")
+    elif s[0] == "tproj" and s[2] == 0 and s[1][0] == "call" and s[1][1].endswith("::split_at") and len(s[1][2]) == 2 and s[1][2][0] == base:
+        end = s[1][2][1]
+    if end is None:
         return False
-    end = dict(s[2][2])["end"]
-    return end == ("bin", "Sub", ("call", "core::slice::len", (base,)), ("call", "core::slice::len", (rem,)))
+    if end == ("bin", "Sub", ("call", "core::slice::len", (base,)), ("call", "core::slice::len", (rem,))):
+        return True
+    if sk is None or f is None or x is None:
+        return False
+    import fm
+    import slicelin
+    sl = slicelin.SliceLin(sk, f["ps"], f.get("inp"))
+    facts = sl.premises(x) + sl.cond_facts(x) + sl.slice_facts(rem, x) + sl.slice_facts(base, x) + [fm.ge0(sl.ln(rem)), fm.ge0(sl.ln(base))]
+    return all(fm.entails(facts, g) for g in fm.eq(sl.L(end) + sl.ln(rem), sl.ln(base)))
 
 
 def discarded_results(body, names=("push", "try_into", "from_str_radix", "parse", "extend_from_slice", "write_response")):
@@ -492,7 +508,7 @@ def rule_N(ck, lib):
         for site, lst in sorted(sites.items()):
             und = [x for d, x in lst if d is None]
             fails = [x for d, x in lst if d is False]
-            okf = all(x.kind in ("err", "panic") for x in fails) and fails
+            okf = all(x.kind in ("err", "panic") or (x.kind == "return" and x.value is not None and x.value[0] == "ctor" and x.value[1] == ERR) for x in fails) and fails
             ck.judge(not und and okf, "C03-N", "arguments:push@%s" % site.split(":")[-1], "overflow of the argument vector ends the parse (error or discharged unwrap)",
                      "a failed push (more than MAX_ARGS parameters) is ignored: %s" % ([pathsum.show_exit(x)[:200] for x in und + fails][:1]), site)
         ck.floor("C03-N", "push sites in arguments()", len(sites), 2)
